@@ -90,3 +90,35 @@ pub fn dense_exps(lo: i32, hi: i32, quick: bool) -> Vec<i32> {
     v.dedup();
     v
 }
+
+/// Linear ladder: all j/denom for j in jlo..=jhi (both signs if `both`), each with zero low word and
+/// low words of both signs at two gaps.  Covers the interior of every O(1) range-reduction interval.
+pub fn linear_ladder(jlo: i64, jhi: i64, denom: f64, both: bool) -> Vec<[f64; 2]> {
+    let mut v: Vec<[f64; 2]> = vec![];
+    for j in jlo..=jhi {
+        let h = j as f64 / denom;
+        if h == 0.0 {
+            continue;
+        }
+        let signs: &[f64] = if both { &[1.0, -1.0] } else { &[1.0] };
+        for &s in signs {
+            let hi = s * h;
+            v.push([hi, 0.0]);
+            let e = crate::grid::exp_of(hi);
+            for g in [0, 9] {
+                for ls in [1.0, -1.0] {
+                    let lo = ls * 2f64.powi(e - 54 - g) * 1.3125;
+                    if tfref::big::dd_valid_fast(hi, lo) {
+                        v.push([hi, lo]);
+                    }
+                }
+            }
+        }
+    }
+    v
+}
+
+/// The double-double nearest to an exact/enclosed value (lower end of the enclosure), if finite.
+pub fn dd_of(e: &Iv) -> Option<[f64; 2]> {
+    e.lo.to_dy().to_dd_rn().map(|t| [t.0, t.1])
+}
